@@ -76,10 +76,42 @@ def surface_kwargs(s):
     return kw
 
 
-def build(spec, cache_materials=True, with_settings=True):
+def used_optic():
+    """an Optic that already held, and was asked about, a different lens (finite object, stop on the third surface,
+    tilted element, pickup): what `build(spec, optic=...)` resets and re-uses"""
     from optiland.optic import Optic
     from optiland.materials import IdealMaterial
     o = Optic()
+    o.add_surface(index=0, radius=np.inf, thickness=80.0)
+    o.add_surface(index=1, radius=35.0, thickness=4.0, material=IdealMaterial(n=1.52, k=0.0))
+    o.add_surface(index=2, radius=-50.0, thickness=6.0)
+    o.add_surface(index=3, radius=np.inf, thickness=3.0, is_stop=True, rx=0.02)
+    o.add_surface(index=4, radius=-28.0, thickness=2.5, material=IdealMaterial(n=1.8, k=0.0))
+    o.add_surface(index=5, radius=-50.0, thickness=60.0)
+    o.add_surface(index=6)
+    o.set_aperture(aperture_type='objectNA', value=0.05)
+    o.set_field_type(field_type='object_height')
+    o.add_field(y=0.0)
+    o.add_field(y=-7.0)
+    o.add_wavelength(value=0.48)
+    o.add_wavelength(value=0.62, is_primary=True)
+    o.pickups.add(1, 'radius', 5, scale=-1.0, offset=0.0)
+    o.update()
+    P = o.paraxial
+    P.f2(), P.EPL(), P.EPD(), P.XPL(), P.chief_ray(), P.marginal_ray()
+    o.trace(0.0, 1.0, 0.62, 2, 'hexapolar')
+    o.aberrations.seidels()
+    return o
+
+
+def build(spec, cache_materials=True, with_settings=True, optic=None):
+    from optiland.optic import Optic
+    from optiland.materials import IdealMaterial
+    if optic is None:
+        o = Optic()
+    else:
+        o = optic
+        o.reset()          # documented: back to the initial (empty) state
     t_obj = fl(spec['obj']['t'])
     n0 = float(spec['obj'].get('n', 1.0))
     if n0 != 1.0:
